@@ -39,6 +39,10 @@ func (bmach *Bondmachine) Fitness_default(in *simbox.Simbox, exp *simbox.Simbox,
 	out.Rules = make([]simbox.Rule, 0)
 
 	for _, rule := range exp.Rules {
+		// Skip suspended rules
+		if rule.Suspended {
+			continue
+		}
 		// Intercept the set rules
 		if rule.Action == simbox.ACTION_SET {
 			out.Rules = append(out.Rules, simbox.Rule{rule.Timec, rule.Tick, simbox.ACTION_GET, rule.Object, "", false})
